@@ -40,10 +40,24 @@ def run(prog, chk):
                sink, drains or "nothing", "" if ok else
                ": _read_response silently drops responses whose sink is type(None), and _finish_responses(self) waits for responses "
                "registered under the file - so a write the server rejected is never reported"))
+    # once _write starts collecting, it collects every queued status: the drain loop over self._reqs has no other way out
+    # than the queue running empty or an error (a `break` leaves later - possibly rejecting - statuses unexamined)
+    loops = [lp for lp in walk_no_defs(wr.node) if isinstance(lp, ast.While) and "self._reqs" in unparse(lp.test)]
+    chk.floor("R1", "drain loops over self._reqs in SFTPFile._write", len(loops), 1)
+    for i, lp in enumerate(loops):
+        early = [x for st in lp.body for x in ast.walk(st) if isinstance(x, (ast.Break, ast.Return))]
+        reads = [x for st in lp.body for x in ast.walk(st) if M.is_call(x, attr="_read_response")]
+        pops = [x for st in lp.body for x in ast.walk(st) if M.is_call(x, name="self._reqs.popleft") or M.is_call(x, name="self._reqs.pop")]
+        chk.ob("R1.drain-collects-every-queued-status", "SFTPFile._write#%d" % i, not early and len(reads) == 1 and len(pops) == 1 and not lp.orelse, fl.where(lp),
+               "while %s: %d early exit(s), %d _read_response, %d dequeue(s)" % (unparse(lp.test), len(early), len(reads), len(pops)))
     # the file object's async hook converts status and close re-raises
     from ._shared import async_status_discipline
     d = async_status_discipline(prog)
     ok = d["ok_saved"] and set(d["absorbed"]) <= {"EOFError"} and (not d["absorbed"] or d["unregisters"])
+    # an EOF status must not be *saved*: _check_exception would re-raise EOFError wherever the reader happens to wait and
+    # BufferedFile.read takes EOFError from _read for the end of the file - the copy stops short without an error
+    chk.ob("R3.async-eof-status-not-saved", "SFTPFile._async_response", d["absorbed"] == ["EOFError"] and d["unregisters"], d["loc"],
+           "an EOFError from _convert_status is caught before the catch-all and only passed over (absorbed: %s; %s)" % (d["absorbed"] or "nothing", d["detail"]))
     chk.ob("R3.async-status-saved", "SFTPFile._async_response", ok, d["loc"],
            "every error status of an async response is saved (whatever its class) for the next file operation%s; %s" % (
                "" if not d["absorbed"] else " - except %s, which is left to the ordinary read the reader falls back to (allowed only "
